@@ -178,6 +178,7 @@ class HeapGen:
         self.emit('collect')
         self.emit('snap')
         self.emit('inv')
+        self.lines.append('audit')       # every handle belongs to a slot of the client or to a definition
         self.note('collect')
 
     def history(self, n_ops, every=0):
@@ -189,6 +190,7 @@ class HeapGen:
         self.emit('collect')
         self.emit('snap')
         self.emit('inv')
+        self.lines.append('audit')
         for i in sorted(self.slots):
             self.emit(f'peek {i}')
         return self.lines
